@@ -29,6 +29,7 @@ struct C06Options
 {
     bool allowIds = false; // give library components XML ids (flattening one twice duplicates them)
     int maxOps = 5;
+    bool libsParsed = false; // the library models will be parsed from files (import elements then have no variables of their own)
     unsigned chainGapPct = 4; // how often an intermediate import element of a chain is left without placeholder variables
 };
 
